@@ -145,9 +145,9 @@ def run(ctx):
     open(pp_, "w").write("\n".join(beh) + "\n")
     plan = {
         "own": ("PureTrace", ("epoch",), "sc",
-                [bpure, "-phase", "own", "-scenarios", op_, "-seed", str(ctx.seed), "-pools", "1800" if quick else "40000"], False),
+                [bpure, "-phase", "own", "-scenarios", op_, "-seed", str(ctx.seed), "-pools", "1400" if quick else "40000"], False),
         "pool": ("PoolTrace", ("pstart",), "pstart",
-                 [bpool, "-scenarios", pp_, "-seed", str(ctx.seed), "-reps", "16" if quick else "100", "-rand", "50" if quick else "2000", "-stress", "3000" if quick else "100000",
+                 [bpool, "-scenarios", pp_, "-seed", str(ctx.seed), "-reps", "12" if quick else "100", "-rand", "40" if quick else "2000", "-stress", "3000" if quick else "100000",
                   "-churn", "2000" if quick else "15000", "-procs", "2,0"], False),
         "poolrace": ("PoolTrace", ("pstart",), "pstart",
                      [bpoolr, "-scenarios", pp_, "-seed", str(ctx.seed + 500), "-reps", "6" if quick else "20", "-rand", "25" if quick else "300", "-stress", "600" if quick else "20000",
